@@ -6,7 +6,8 @@
    Programs are input-free (the debugger shares stdin with the program). *)
 From Coq Require Import List NArith Bool.
 Import ListNotations.
-From HV Require Import Model.Parse Model.Exec Model.Repl Model.Debug Proofs.AppSpec Proofs.AppAll.
+From HV Require Import Model.Parse Model.Exec Model.Repl Model.Debug Proofs.AppSpec Proofs.AppAll Proofs.ExtraSpec.
+From HV Require Proofs.ExtraProofs.
 Open Scope N_scope.
 
 Theorem C11_invariant_initially : forall code, code <> [] -> dinv code dinit.
@@ -46,6 +47,30 @@ Theorem C11_never_crashes : forall fuel code lines evs e, code <> [] ->
   debug_run true true fuel code lines = (evs, e) -> e <> DPanic.
 Proof. exact debug_run_no_panic_t. Qed.
 Print Assumptions C11_never_crashes.
+
+(* `run` stops at the first command carrying a breakpoint: in running mode a breakpointed command is not executed; what
+   was written so far is shown and the prompt returns *)
+Theorem C11_run_stops_at_breakpoint : forall code lines d s pc older, hist d = (s, pc) :: older -> running d = true ->
+  pc < N.of_nat (length code) -> mem_N pc (brk d) = true ->
+  dtrans true true code lines d = ([flushed (dio d)], inr (lines, mkd (hist d) (brk d) false (clear_io (dio d)))).
+Proof. exact ExtraProofs.debug_run_stops. Qed.
+Print Assumptions C11_run_stops_at_breakpoint.
+
+(* every character the program writes is shown exactly once, in order: per iteration, text shown ++ text still pending
+   = text pending before ++ text written by the command executed in this iteration (if any) ... *)
+Theorem C11_output_accounting : forall code lines d evs lines' d',
+  dtrans true true code lines d = (evs, inr (lines', d')) ->
+  flush_out evs ++ pend_out d' = pend_out d ++ (if executes code lines d then fst (step_text code d) else []) /\
+  flush_err evs ++ pend_err d' = pend_err d ++ (if executes code lines d then snd (step_text code d) else []).
+Proof. exact ExtraProofs.debug_output_step. Qed.
+Print Assumptions C11_output_accounting.
+(* ... and when the session ends (program finished, program-requested exit, diagnosed error) nothing stays pending *)
+Theorem C11_output_accounting_at_end : forall code lines d evs e,
+  dtrans true true code lines d = (evs, inl e) -> e <> DPanic -> e <> DEof -> e <> DQuit ->
+  flush_out evs = pend_out d ++ (if executes code lines d then fst (step_text code d) else []) /\
+  flush_err evs = pend_err d ++ (if executes code lines d then snd (step_text code d) else []).
+Proof. exact ExtraProofs.debug_output_end. Qed.
+Print Assumptions C11_output_accounting_at_end.
 
 (* the pinned tree (before fix ac65e29) could: `break <number of commands>` then `break` *)
 Theorem C11_pinned_panics : exists fuel code lines, code <> [] /\ snd (debug_run false true fuel code lines) = DPanic.
